@@ -88,6 +88,12 @@ Definition dispatch1 (orc : oracles) (req : sexp) : sexp :=
           end
       | 3%nat, [] => token_table orc
       | 4%nat, [src] => match sd_text src with Some t => scan_text orc t | None => bad_request end
+      | 7%nat, [src] =>
+          match sd_text src with
+          | Some t => match parse_duration t with Ok d => L [A 0; A d] | _ => L [A 1] end
+          | None => bad_request
+          end
+      | 8%nat, [A d] => se_text (format_duration d)
       | 6%nat, [st] => match sd_stmt st with Some st' => se_stmt st' | None => bad_request end
       | 5%nat, [src; params] =>
           match sd_text src, sd_params params with
